@@ -140,9 +140,12 @@ class TableEngine:
     # ------------------------------------------------------------ generators
     def _val(self, rng):
         self.counter += 1
-        kind = rng.weighted([("int", 6), ("str", 3), ("none", 1), ("bool", 0.3), ("multiline", 0.4 if self.prop == "C17" else 0)], "vkind")
+        kind = rng.weighted([("int", 6), ("str", 3), ("none", 1), ("bool", 0.3), ("multiline", 0.4 if self.prop == "C17" else 0),
+                             ("bigint", 0.4 if self.prop == "C17" else 0)], "vkind")
         if kind == "int":
             return self.counter
+        if kind == "bigint":
+            return 2**53 + 1 + 2 * self.counter  # (an identifier / barcode: not representable as a double)
         if kind == "str":
             return f"s{self.counter}"
         if kind == "multiline":
@@ -336,6 +339,10 @@ class TableEngine:
             return {"level": "none"}
         if mode == "light":
             return {"level": "light"}
+        if (tv.width + 2) * (tv.height + 2) > 1500:
+            # work bound: a table grown past ~1500 logical cells (repeats of 20..60 stacked by the history) is
+            # observed through the light set (size, window, single values), the full set costs seconds per step
+            return {"level": "light"}
         plan = {"level": "full"}
         W, H = tv.width + 2, tv.height + 2
         x = rng.randint(0, max(0, W - 1), "ax")
@@ -439,7 +446,9 @@ class TableEngine:
                 op = {"op": "clone_" + what, "c": self._coord(rng, tv, beyond=False) if tv.height else {"x": 0, "y": 0}, "obs": {"level": "none"}}
                 self.counter += 1
                 op["v"] = f"c{self.counter}"
-                op["mut"] = rng.choice(["set_value", "append", "delete", "insert", "style", "repeated"], "cmut")
+                op["mut"] = rng.choice(["set_value", "append", "delete", "insert", "style", "repeated", "attach_rep", "attach_rep"], "cmut")
+                if what == "row":
+                    op["via"] = rng.choice(["get_row", "get_row", "rows", "get_rows", "traverse"], "cvia")
                 if self.twin is not None and rng.chance(0.5, "on"):
                     op["on"] = "twin"
                 return op
@@ -679,6 +688,12 @@ class TableEngine:
                 op["again"] = {}
             elif name == "set_cells" and len(op["cells"]) > 1 and op["cells"][0]:
                 op["share"] = True
+            elif name in ("insert_column", "set_column") and op.get("col") is not None:
+                op["again"] = {"x": self._pick_col(rng, tv)}
+            elif name == "append_column" and op.get("col") is not None:
+                op["again"] = {}
+        if name in ("insert_column", "set_column", "append_column") and op.get("col") is not None and rng.chance(0.2, "touch_arg"):
+            op["touch_arg"] = True
         # coordinate forms for y / x arguments
         if "y" in op and name not in ("row_edit",) and self._form(rng) == "s":
             op["yform"] = "s"
@@ -697,6 +712,8 @@ class TableEngine:
             op["obs"]["target_row"] = ty
         if self.prop == "C10" and self.twin is not None and rng.chance(0.5, "on"):
             op["on"] = "twin"
+        if self.prop == "C10" and self.twin is not None and name in ("set_column", "insert_column", "append_column", "set_row", "insert_row", "append_row", "set_cell", "insert_cell", "append_cell") and op.get("clone", True) and rng.chance(0.3, "arg_to_other"):
+            op["arg_to_other"] = True
         if name in ("live_row_rep", "live_cell_rep"):
             op["obs"]["level"] = "full"  # attribute a divergence to this very step
         return op
@@ -764,6 +781,24 @@ class TableEngine:
             d = ts.first_diff(snap, now)
             if d:
                 return [Violation("C10", "twin-changed", op["op"] if op["op"] != "read" else "read:" + op["kind"], ["on_twin" if on_twin else "on_orig"], None, "the untouched twin changed: " + d)]
+        # the object the caller passed (the table took a copy of it) is then given to the OTHER twin too:
+        # the first table must not notice
+        arg = getattr(self, "_last_aux", {}).get("arg")
+        if op.get("arg_to_other") and other is not None and arg is not None:
+            from odfdo import Cell, Column, Row
+
+            try:
+                snap2 = self._twin_obs(active)
+                ts.reapply_with_arg(other.table, op, arg)  # the same call, on the other table, with the same object
+                now2 = self._twin_obs(active)
+            except Exception:
+                self.stats.probe("arg_to_other_raised")
+                return vs
+            self.stats.probe("arg_given_to_other_twin")
+            d = ts.first_diff(snap2, now2)
+            if d:
+                return [Violation("C10", "twin-changed", op["op"], ["argument_reused_on_other_twin", "on_twin" if on_twin else "on_orig"], None,
+                                  "giving the argument object of this call to the other twin changed this one: " + d)]
         return vs
 
     def _clone_item(self, op, tv):
@@ -778,8 +813,19 @@ class TableEngine:
         name = op["op"]
         before_xml = t.serialize()
         try:
+            live_before = (t.size, ts.norm(t.get_values()))
             if what == "row":
-                a = t.get_row(y, clone=False)
+                via = op.get("via", "get_row")
+                if via == "get_row":
+                    a = t.get_row(y, clone=False)
+                elif via == "rows":
+                    a = t.rows[y]
+                elif via == "get_rows":
+                    a = t.get_rows()[y]
+                else:
+                    a = list(t.traverse())[y]
+                if via != "get_row":
+                    a_vals = ts.norm(a.get_values())
             else:
                 if x >= len(tv.rows[y]):
                     return []
@@ -814,6 +860,13 @@ class TableEngine:
                     b.insert_cell(0, Cell(op["v"]))
                 elif mut == "style":
                     b.style = "clone_style"
+                elif mut == "attach_rep":
+                    # the clone goes into another table (as is) and changes its repeat count there
+                    from odfdo import Table
+
+                    t2 = Table("Elsewhere")
+                    t2.append_row(b, clone=False)
+                    b.repeated = 3
                 else:
                     b.repeated = 3
             else:
@@ -828,6 +881,13 @@ class TableEngine:
             return []
         if t.serialize() != before_xml or a.serialize() != a_ser:
             return [Violation("C10", "twin-changed", name, ["mutated_clone"], None, f"mutating ({mut}) the {what} clone changed the original")]
+        try:
+            live_after = (t.size, ts.norm(t.get_values()))
+        except Exception as e:
+            return [Violation("C10", "twin-unreadable", name, ["mutated_clone", "table_of_the_original"], type(e).__name__, str(e))]
+        if live_after != live_before:
+            return [Violation("C10", "twin-changed", name, ["mutated_clone", "table_of_the_original"], None,
+                              f"mutating ({mut}) the {what} clone changed what the table of the original answers: size {live_before[0]} -> {live_after[0]}")]
         if what == "row":
             try:
                 vals = ts.norm(a.get_values())
@@ -909,6 +969,7 @@ class TableEngine:
             self._outcome = "probe:" + (vs[0].oracle if vs else "ok")
             return vs
         aux = {}
+        self._last_aux = aux
         sut_exc = None
         sut_exc_detail = ""
         try:
